@@ -1129,8 +1129,10 @@ func (e *Engine) overlay(r io.Reader, basePath string, asNew bool) error {
 		// were complete.
 		cr := intar.NewCompleteReader(r)
 		tr := tar.NewReader(cr)
+		// New names given to the files of the backup when asNew is set.
+		renames := make(map[string]string)
 		for {
-			fileName, err := e.readFileFromBackup(tr, basePath, asNew)
+			fileName, err := e.readFileFromBackup(tr, basePath, asNew, renames)
 			if err == io.EOF {
 				if cr.Complete() {
 					break
@@ -1146,6 +1148,14 @@ func (e *Engine) overlay(r io.Reader, basePath string, asNew bool) error {
 			} else if fileName != "" {
 				newFiles = append(newFiles, fileName)
 			}
+		}
+
+		// The deletes that were pending in the backed up shard are part of its
+		// content. Tombstone files are not handled by the file store: move them
+		// into place first, so that the TSM files they belong to are loaded
+		// with these deletes applied.
+		if err := e.installTombstonesFromBackup(newFiles); err != nil {
+			return nil, err
 		}
 
 		if err := file.SyncDir(e.path); err != nil {
@@ -1229,19 +1239,54 @@ func (e *Engine) overlay(r io.Reader, basePath string, asNew bool) error {
 	return nil
 }
 
+// installTombstonesFromBackup renames the temporary tombstone files among
+// files, as copied by readFileFromBackup, to their final names. A tombstone
+// file whose TSM file is neither part of the backup nor present in the shard
+// is dropped.
+func (e *Engine) installTombstonesFromBackup(files []string) error {
+	tsmExt := fmt.Sprintf(".%s", TSMFileExtension)
+	tmpExt := fmt.Sprintf(".%s", TmpTSMFileExtension)
+	tombstoneTmpExt := fmt.Sprintf(".%s%s", TombstoneFileExtension, tmpExt)
+
+	restored := make(map[string]struct{}, len(files))
+	for _, f := range files {
+		restored[f] = struct{}{}
+	}
+
+	for _, f := range files {
+		if !strings.HasSuffix(f, tombstoneTmpExt) {
+			continue
+		}
+		tsmPath := strings.TrimSuffix(f, tombstoneTmpExt) + tsmExt
+		if _, ok := restored[tsmPath+tmpExt]; !ok {
+			if _, err := os.Stat(tsmPath); err != nil {
+				if err := os.Remove(f); err != nil {
+					return err
+				}
+				continue
+			}
+		}
+		if err := file.RenameFile(f, strings.TrimSuffix(f, tmpExt)); err != nil {
+			return err
+		}
+	}
+	return nil
+}
+
 // readFileFromBackup copies the next file from the archive into the shard.
 // The file is skipped if it does not have a matching shardRelativePath prefix.
 // If asNew is true, each file will be installed as a new TSM file even if an
-// existing file with the same name in the backup exists.
-func (e *Engine) readFileFromBackup(tr *tar.Reader, shardRelativePath string, asNew bool) (string, error) {
+// existing file with the same name in the backup exists; renames records the
+// new names so that a TSM file and its tombstone file stay together.
+func (e *Engine) readFileFromBackup(tr *tar.Reader, shardRelativePath string, asNew bool, renames map[string]string) (string, error) {
 	// Read next archive file.
 	hdr, err := tr.Next()
 	if err != nil {
 		return "", err
 	}
 
-	if !strings.HasSuffix(hdr.Name, TSMFileExtension) {
-		// This isn't a .tsm file.
+	if !strings.HasSuffix(hdr.Name, TSMFileExtension) && !strings.HasSuffix(hdr.Name, "."+TombstoneFileExtension) {
+		// This is neither a .tsm file nor the tombstone file of one.
 		return "", nil
 	}
 
@@ -1264,7 +1309,16 @@ func (e *Engine) readFileFromBackup(tr *tar.Reader, shardRelativePath string, as
 	}
 
 	if asNew {
-		filename = e.formatFileName(e.FileStore.NextGeneration(), 1) + "." + TSMFileExtension
+		// A TSM file and its tombstone file differ in the extension only:
+		// both get the same new name.
+		ext := filepath.Ext(filename)
+		base := strings.TrimSuffix(filename, ext)
+		newBase, ok := renames[base]
+		if !ok {
+			newBase = e.formatFileName(e.FileStore.NextGeneration(), 1)
+			renames[base] = newBase
+		}
+		filename = newBase + ext
 	}
 
 	tmp := fmt.Sprintf("%s.%s", filepath.Join(e.path, filename), TmpTSMFileExtension)
